@@ -135,6 +135,14 @@ def coq_build(targets=None, timeout=3000):
             rc, out = sh(["timeout", str(timeout)] + cmd, cwd=COQ)
         except subprocess.TimeoutExpired:
             return False, "make timed out", gen_ok
+        if rc != 0:
+            # a failed compilation leaves the previous .vo in place; nothing may
+            # be evaluated against it
+            for rel in coq_files():
+                v, vo = os.path.join(COQ, rel), os.path.join(COQ, rel[:-2] + ".vo")
+                if os.path.exists(vo) and os.path.getmtime(v) > os.path.getmtime(vo):
+                    with contextlib.suppress(OSError):
+                        os.remove(vo)
         return rc == 0, gen_log + out, gen_ok
 
 
